@@ -42,6 +42,9 @@ impl Ctx {
 
     pub fn line(&mut self, l: String) -> Option<String> {
         let out = self.m.exec(&l);
+        // a line the interpreter cannot parse is an error of the generator (the only intended one is a decode of the empty string,
+        // which the line format cannot carry); both interpreters would agree on "bad-op" and the scenario would test nothing
+        if out.as_deref() == Some("bad-op") && !l.trim_end().ends_with("decode") { self.count("harness:bad-op"); if self.counters.get("harness:bad-op") == Some(&1) { eprintln!("generator wrote a line the interpreter rejects: {}", l); } }
         self.lines.push(l);
         if let Some(o) = &out { self.outs.push(o.clone()); }
         out
